@@ -38,6 +38,18 @@ func (s *Scanner) Scan() bool {
 		return false
 	}
 
+	// Nothing left to read is the regular end of the input. Running out of
+	// input inside a record is not.
+	if pars.End(s.s, pars.Void) == nil {
+		s.err = io.EOF
+		return false
+	}
+	defer func() {
+		if s.err != nil && dig(s.err) == io.EOF {
+			s.err = io.ErrUnexpectedEOF
+		}
+	}()
+
 	if s.p == nil {
 		errs := make([]struct {
 			err error
